@@ -215,7 +215,18 @@ pub fn run(ctx: &mut Ctx) {
             continue;
         }
         // --- a rejected source
-        let rejected_src = gen_rejected(&mut ctx.rng);
+        let mut rejected_src = gen_rejected(&mut ctx.rng);
+        let mut extra_probe: Option<String> = None;
+        if ctx.rng.chance(15) {
+            // a constant that exists already is overwritten (more than once) by the rejected source: it must come back
+            ctx.tag("kind:constant-overwritten");
+            let k = ctx.rng.range(0, 99);
+            pre.extend(styled(&mut ctx.rng, style, format!("#( {} const kk #)", k)));
+            let n = ctx.rng.below(3) + 1;
+            let over: Vec<String> = (0..n).map(|j| format!("#( {} const kk #)", k + 1 + j as i64)).collect();
+            rejected_src = format!("{} {}", over.join(" "), rejected_src);
+            extra_probe = Some("kk".to_string());
+        }
         let bad = match style { 0 => Op::Eval(rejected_src.clone()), 1 => Op::Line(rejected_src.clone()), _ => if ctx.rng.bool() { Op::Compile(rejected_src.clone()) } else { Op::Eval(rejected_src.clone()) } };
         let nprobes = ctx.rng.below(4) + 1;
         let mut probes: Vec<Op> = Vec::new();
@@ -223,6 +234,7 @@ pub fn run(ctx: &mut Ctx) {
             let p = if ctx.rng.chance(15) { gen_program(&mut ctx.rng, &cfg).0 } else { (*ctx.rng.pick(PROBES)).to_string() };
             probes.extend(styled(&mut ctx.rng, style, p));
         }
+        if let Some(p) = extra_probe { probes.insert(0, if style == 1 { Op::Line(p) } else { Op::Eval(p) }); }
         let mut ops = pre.clone();
         ops.push(bad.clone());
         ops.extend(probes.iter().cloned());
